@@ -23,7 +23,7 @@ RULE = ('module M (4-40 functions, data segments incl. passive ones + memory.ini
         'options (no -c); all translator build variants give byte-identical files; modules with nesting depths of 1500-8000 blocks '
         'translate into several files (-f, -t, -r) whenever they translate into one, with the same function texts. Non-trivial = variant with '
         '>= 2 implementation files, both static and dynamic functions, >= 2 worker threads with >= 3 files, or >= 3 options; '
-        'distinct by (module, option set).')
+        'distinct by (module, option set). Name sections carry demangled-style names (blanks, parentheses, angle brackets, quotes, backslashes), names that look like the escapes of the translator and families of different names that differ only outside [A-Za-z0-9_], the latter on internal functions.')
 ASSUME = ['command lines put options before the two positional arguments; -t is never passed to a HAS_PTHREAD=0 build',
           'producer/worker interleavings: real threads (1-64 workers, byte-identical results) plus generated schedules of the '
           'vsched-linked translator (evidence key schedules_explored); both are samples, not an enumeration']
